@@ -419,10 +419,18 @@ func (c *evalCtx) binary(n *ast.BinaryExpr) Value {
 		a := c.rv(c.eval(n.X))
 		b := c.rv(c.eval(n.Y))
 		var eq *Term
+		nilOf := func(v Value, e ast.Expr) *Term {
+			switch v.(type) {
+			case Ptr, Sl, If, Fn, Sc, MapV:
+				return isNilTerm(v)
+			}
+			c.errf("comparison with nil of %s, which is a %T value", exprString(e), v)
+			return nil
+		}
 		if _, ok := b.(nilLit); ok {
-			eq = isNilTerm(a)
+			eq = nilOf(a, n.X)
 		} else if _, ok := a.(nilLit); ok {
-			eq = isNilTerm(b)
+			eq = nilOf(b, n.Y)
 		} else {
 			eq = c.valEq(a, b)
 		}
@@ -868,7 +876,7 @@ func (c *evalCtx) callExpr(n *ast.CallExpr) Value {
 		return Sl{Arr: App("strbytes", SArr, sv), O: Int(0), L: App("strlen", SInt, sv), C: App("strlen", SInt, sv), R: Int(-2), Elem: types.Typ[types.Uint8]}
 	case "strcat":
 		declareFun("strcat", "(declare-fun strcat (Int Int) Int)")
-		return Sc{App("strcat", SInt, c.term(arg(0)), c.term(arg(1)))}
+		return Sc{Strcat(c.term(arg(0)), c.term(arg(1)))}
 	case "asptr":
 		// asptr(x, "*T"): the pointer held by interface value x, viewed as *T (the caller states the dynamic type separately)
 		iv, ok := c.rv(c.eval(arg(0))).(If)
